@@ -95,6 +95,8 @@ def programs(ctx):
                 if step >= 2 and (shape, ish) not in (((3,), (2,)), ((2, 2), (2, 3))):
                     break
                 for ops, r in level:
+                    if ops and ops[-1][0] == "power" and isinstance(ops[-1][1], str):
+                        continue  # x ** y with array exponents leaves the exactly-representable value alphabet: a leaf
                     for op in ops_for(r, full, step):
                         if step >= 2 and op[0] in ("isel", "sel", "transform", "expand"):
                             continue
